@@ -308,6 +308,13 @@ static void run_backend (void)
     if (reg && vh_apply_str (reg, "hb_report", 0, 0, res, sizeof res) == 0)
       vh_out ("hbs %s", res);
   }
+  {
+    int n = 0;
+    for (int i = 0; all_users && i < max_users; i++)
+      if (all_users[i])
+        n++;
+    vh_out ("slots %d", n);
+  }
   for (int k = 0; k < MAXCLI; k++)
     if (cli[k].used && !cli[k].closed_by_script)
       {
